@@ -16,7 +16,13 @@ CONSTANTS
   AllowFail = TRUE
   AllowNoop = FALSE
   BootAll = TRUE
-  ActWeight = 30
+  AllRanks = FALSE
+  AllowBad = FALSE
+  PubWeight = 3
+  CommitWeight = 5
+  SyncWeight = 3
+  ActWeight1 = 3
+  ActWeight = 60
 INVARIANTS Frontier Convergence LazyMergeEquiv NoParallelFinalizeCommitted HelloSound Emit
 CONSTRAINT NotDone
 CHECK_DEADLOCK FALSE
